@@ -5,6 +5,11 @@ import subprocess
 
 CLAIMED = {
     # id: (technique, level text, level note, design_ref)
+    "C21": ("Kani/CBMC on LuaDocument::to_lsp_range per byte-width shape + MIR-to-SMT symbolic execution of translate_range and SyntaxErrorChecker::check",
+            "Range clause: every char-boundary text range converts to an ordered, in-document, UTF-16 LSP range (CBMC). Glue: translate_range maps range.start()/end() through get_line_col of the "
+            "diagnostic's own document (falls back only when something is missing); every parse error yields exactly one diagnostic with the code of its kind, its range and message (z3 over all paths, <= 2 errors).",
+            "Message text, per-checker ranges, duplicate-freedom are outside; known-code/severity are covered by C20's gating obligation.",
+            "DESIGN.md §2 C21"),
     "C22": ("Kani/CBMC bounded model checking of LineIndex per byte-width shape (cadical), native replay of counterexamples",
             "Solver verdict (CBMC+cadical on the compiled MIR of the real LineIndex) that every (line, character) in usize x usize converts "
             "to nothing / an in-document, on-line, clamped offset, and that offset->position->offset is the identity, for every text of a "
@@ -44,6 +49,16 @@ CLAIMED = {
             "group index can be absent (pattern analysed from the MIR constant), and no unwrap is reached on None — on all paths of pre_process_path, pre_process_workspace_path_item and the two regex closures.",
             "std string API contracts; regex group participation by syntactic analysis of the pattern; JSON flattening, the Lua loader and file I/O are outside (a native panic battery covers them only as replay).",
             "DESIGN.md §2 C31"),
+    "C01": ("Kani/CBMC on Reader per byte-width shape + MIR-to-SMT symbolic execution of LuaGreenNodeBuilder with exact Vec models over all operation patterns and symbolic kinds; native replay by parsing",
+            "Kernel-scope claim: (i) the reader covers the whole text (CBMC: ranges, tiling, end-of-input <=> all consumed, progress) for every text shape; (ii) the green builder keeps every pushed "
+            "token exactly once and in order under one root, for every balanced operation sequence within the bound and every node/token kind (paths of the real MIR, z3 feasibility).",
+            "Lexer lexeme choice, grammar events, doc parsing and rowan emission are outside (stated in DESIGN.md); precondition from the grammar: no node is finished before the first token is pushed.",
+            "DESIGN.md §2 C01"),
+    "C02": ("Kani/CBMC panic/overflow/bounds/unwinding checks on Reader + MIR-to-SMT symbolic execution of LuaGreenNodeBuilder over every (also unbalanced) operation pattern with index/drain/insert range obligations",
+            "Kernel-scope claim: within the bounds, the reader and the green builder cannot panic, overflow, index out of range or loop past their bound, whatever the kinds and however unbalanced the "
+            "operation sequence is.",
+            "Stack overflow on deep nesting and linear time are NOT claimed (no stack/time model); lexer and grammar are outside.",
+            "DESIGN.md §2 C02"),
 }
 
 NA = {}
@@ -90,9 +105,9 @@ def main():
             "add_only": True,
         },
         "engines": [
-            {"name": "K", "path": "/verif/lib/kanirun.py", "serves_properties": sorted(CLAIMED),
+            {"name": "K", "path": "/verif/lib/kanirun.py", "serves_properties": ["C01", "C02", "C21", "C22", "C23", "C36"],
              "kind_free_text": "Kani 0.68 proof harnesses (/verif/kani/*) over the real crates, CBMC 6.11 + cadical, unwinding assertions on, native replay"},
-            {"name": "M", "path": "/verif/mirsmt", "serves_properties": ["C19", "C20", "C24", "C31", "C36"],
+            {"name": "M", "path": "/verif/mirsmt", "serves_properties": ["C01", "C02", "C19", "C20", "C21", "C24", "C31", "C36"],
              "kind_free_text": "symbolic execution of rustc's MIR of the real functions into SMT (z3, cross-checked with cvc5)"},
         ],
         "checks": checks,
